@@ -124,7 +124,7 @@ def check(rec, kind, idx, rng, tier):
     use_dask = idx % 5 == 4
     chunks = gen.random_chunks((H, W), rng) if use_dask else None
     attrs = {'note': 'x'}
-    r = gen.mk(z, res=res, attrs=attrs, name='dem', chunks=chunks, **geom)
+    r = gen.mk(gen.rand_layout(z, rng) if not use_dask else z, res=res, attrs=attrs, name='dem', chunks=chunks, **geom)
     z64 = z.astype('float32').astype('float64')
     intval = bool(np.all(z64[np.isfinite(z64)] == np.round(z64[np.isfinite(z64)])) and np.nanmax(np.abs(z64), initial=0) < 2 ** 20)
     az = float(rng.choice([225, 0, 90, 180, 315, 45.5, 360])); alt = float(rng.choice([25, 0, 45, 90, 10.5]))
